@@ -319,7 +319,8 @@ def spec_for(_line):
 
 # ---- generators ------------------------------------------------------------------------------------
 
-POS = [(0, 0), (0.25, 0), (0, 0.5), (1, 1), (2, 0.5), (0.5, 1), (1, 0), (2, 1)]
+POS = [(0, 0), (0.25, 0), (0, 0.5), (1, 1), (2, 0.5), (0.5, 1), (1, 0), (2, 1),
+       (179.75, 10), (-179.75, 10), (19, 69.5), (19.5, 69.75)]   # both sides of the antimeridian, high latitude
 OTHER_GEOMS = ['B_0_2_2_0', 'G_0_0_3_0_0_3', 'C_1_1_50000', 'L_0_0_2_0', 'MP_0_0_1_1']
 
 
@@ -330,6 +331,12 @@ def rand_track_specs(rng, n, nt, pool=None, p_none=0.0):
         r = rng.random()
         if r < p_none:
             dt = None
+        elif rng.random() < 0.08:
+            # sentinel bounds: open-ended (TimeInterval(start): end = datetime.max), since-forever (start =
+            # datetime.min), eternal, and the extreme instants
+            t = U.T(rng.randrange(nt))
+            dt = rng.choice([(t, U.MAX_US), (t, U.MAX_US), (t, U.MAX_US), (U.MIN_US, t), (U.MIN_US, t),
+                             (U.MIN_US, U.MAX_US), (U.MAX_US, U.MAX_US), (U.MIN_US, U.MIN_US)])
         elif r < 0.55:
             s = rng.randrange(nt)
             dt = (U.T(s), U.T(s))
@@ -413,6 +420,8 @@ def speed_candidates(rng, track_shapes, limit):
 
 def bound_tok(rng, v):
     r = rng.random()
+    if U.near_sentinel(v):
+        return str(v) if r < 0.7 else f'{v}@n'
     if r < 0.6:
         return str(v)
     if r < 0.8:
@@ -430,7 +439,7 @@ def track_lines(rng, specs, hist, speed_limit=6, nslices=6):
         return lines + [f'tr.slice {head} | - -']
     tr = L['Track'](list(shapes))
     ticks = sorted({d for _g, dt, _p in specs for d in dt})
-    cand = ['-'] + [str(t + o) for t in ticks for o in (-1, 0, 1)]
+    cand = ['-', '-'] + sorted({str(U.clip(t + o)) for t in ticks for o in (-1, 0, 1)}) + [str(U.MIN_US), str(U.MAX_US)]
     pairs = [('-', '-')] + [(rng.choice(cand), rng.choice(cand)) for _ in range(nslices)]
     for a, b in pairs:
         a = a if a == '-' else bound_tok(rng, int(a))
@@ -439,7 +448,7 @@ def track_lines(rng, specs, hist, speed_limit=6, nslices=6):
     tods = sorted({(t - U.BASE_US) % DAY for t in ticks})
     for _ in range(2):
         s, e = (rng.choice(tods) + rng.choice([-1, 0, 1]) for _ in range(2))
-        lines.append(f'tr.ftime {head} | {max(0, s)} {max(0, e)}')
+        lines.append(f'tr.ftime {head} | {min(DAY - 1, max(0, s))} {min(DAY - 1, max(0, e))}')
     dsec, _ = dist_table(shapes)
     for v in speed_candidates(rng, tr.geoshapes, speed_limit):
         if safe_speed(tr.geoshapes, v):
@@ -479,7 +488,7 @@ def history_line(rng, nt, hist, with_ftime):
                 pos += m
                 nxt = cur + L['Track'](list(new))
             elif op == 'slice':
-                c = [str(t + o) for t in ticks for o in (-1, 0, 1)]
+                c = [str(U.clip(t + o)) for t in ticks for o in (-1, 0, 1)]
                 lo = '-' if rng.random() < 0.4 else rng.choice(c[:max(1, len(c) // 2)])
                 hi = '-' if rng.random() < 0.4 else rng.choice(c[len(c) // 2:])
                 sec = ['slice', lo, hi] if rng.random() < 0.85 else ['slice', hi, lo]
@@ -488,7 +497,7 @@ def history_line(rng, nt, hist, with_ftime):
                 sec = ['fdt_inst', bound_tok(rng, rng.choice(ticks))]
                 nxt = cur.filter_by_dt(U.mkdt(sec[1]))
             elif op == 'fdt_ival':
-                a, b = sorted(rng.choice(ticks) + rng.choice([0, 0, 1]) for _ in range(2))
+                a, b = sorted(U.clip(rng.choice(ticks) + rng.choice([0, 0, 1])) for _ in range(2))
                 sec = ['fdt_ival', str(a), str(b)]
                 nxt = cur.filter_by_dt(L['TimeInterval'](U.mkdt(sec[1]), U.mkdt(sec[2])))
             elif op == 'fdt_bad':
@@ -522,7 +531,7 @@ def history_line(rng, nt, hist, with_ftime):
                 nxt = cur.filter_impossible_journeys(float(Fraction(sec[1])))
             else:
                 tods = sorted({(t - U.BASE_US) % DAY for t in ticks})
-                sec = ['ftime'] + [str(max(0, rng.choice(tods) + rng.choice([-1, 0, 1]))) for _ in range(2)]
+                sec = ['ftime'] + [str(min(DAY - 1, max(0, rng.choice(tods) + rng.choice([-1, 0, 1])))) for _ in range(2)]
                 nxt = _apply(cur, sec, {}, [])
         except Exception:  # noqa  (the operation raises on the implementation: it stays in the history)
             nxt = cur
@@ -554,17 +563,19 @@ def check(run):
         return [f'{p}:{cls}']
 
     # ---- exhaustive small world: every order of <= 4 (5) shapes over a pool of time bounds on 5 ticks
-    pool = [(0, 0), (1, 1), (2, 2), (0, 4), (1, 2), (1, 1)]            # instants, long early interval, duplicate
-    geoms = ['P_0_0', 'P_1_1', 'P_0_0.5', 'P_1_1', 'B_0_2_2_0', 'P_0.25_0']
+    # instants, long early interval, duplicate, open-ended (end = datetime.max), since-forever (start = datetime.min)
+    pool = [(0, 0), (1, 1), (2, 2), (0, 4), (1, 2), (1, 1), (1, 'max'), ('min', 2)]
+    geoms = ['P_0_0', 'P_1_1', 'P_0_0.5', 'P_1_1', 'B_0_2_2_0', 'P_0.25_0', 'P_1_1', 'P_0_0']
+    tv = lambda k: {'min': U.MIN_US, 'max': U.MAX_US}.get(k) if isinstance(k, str) else U.T(k)  # noqa: E731
 
     def mkspec(k):
         s, e = pool[k]
-        return (geoms[k], (U.T(s), U.T(e)), [])
+        return (geoms[k], (tv(s), tv(e)), [])
     lines = []
     maxlen = run.scale(4, 5)
     for n in range(0, maxlen + 1):
         for seq in itertools.product(range(len(pool)), repeat=n):
-            if n == maxlen and run.quick and rng.random() < 0.5:
+            if n == maxlen and run.quick and rng.random() < 0.8:
                 continue
             toks, _ = U.make_tokens([mkspec(k) for k in seq])
             lines.append('tr.mk ' + ' '.join(toks))
@@ -572,13 +583,14 @@ def check(run):
 
     # every slice bound pair (tick set +-1 µs, omitted) on every track of <= 2 shapes from the pool, and the empty track
     lines = []
-    bnds = ['-'] + [str(U.T(t) + o) for t in range(5) for o in (-1, 0, 1)]
+    bnds = ['-'] + [str(U.T(t) + o) for t in range(5) for o in (-1, 0, 1)] + \
+        [str(U.MIN_US), str(U.MIN_US + 1), str(U.MAX_US - 1), str(U.MAX_US)]
     for n in range(0, 3):
         for seq in itertools.combinations_with_replacement(range(len(pool)), n):
             toks, _ = U.make_tokens([mkspec(k) for k in seq])
             for a in bnds:
                 for b in bnds:
-                    if run.quick and n == 2 and rng.random() < 0.6:
+                    if run.quick and n == 2 and rng.random() < 0.75:
                         continue
                     lines.append(f'tr.slice {" ".join(toks)} | {a} {b}')
     run.run_cases('exhaustive-slices', lines, impl, spec, tag=tag)
@@ -621,7 +633,9 @@ def check(run):
     run.run_cases('histories-with-time-of-day', lines, impl, spec, tag=tag, compare=close)
 
     return run.finish(
-        rule='exhaustive: every input order of <= 4 (thorough: 5) shapes over {instants, a long early-starting '
+        rule='sentinel time bounds (open-ended = datetime.max, since-forever = datetime.min, the extreme instants; as '
+             'shape bounds and as explicit slice bounds) are part of every pool.  '
+             'exhaustive: every input order of <= 4 (thorough: 5) shapes over {instants, a long early-starting '
              'late-ending interval, a short interval, a duplicate}; every slice bound pair from the tick set +-1µs and '
              'omitted on every track of <= 2 shapes and the empty track; every pairwise speed (exact tie, just below, '
              'just above) as limit on orders of <= 4 positioned shapes.  Random: multisets of 1..30 shapes x '
